@@ -105,14 +105,19 @@ def check_restricted(inp):
     L = fm.lang(logic)
     sc = _scope_key(scope_of(inp))
     try:
-        obj = fm.to_lib(t, L)
+        # every other size class is built with equal subformulas as ONE object (req = p and q; G(req --> F req))
+        obj = fm.to_lib(t, L, share={} if fm.size(t) % 2 == 0 else None)
     except Exception as e:
         raise core.HarnessError('cannot build %r in %s: %s' % (t, logic, e))
     try:
         r = obj.get_equivalent_restricted_formula()
         rt = fm.structure(r)
+        # asking the same object again gives the same formula
+        rt2 = fm.structure(obj.get_equivalent_restricted_formula())
     except Exception as e:
         return Failure('restricted', inp, 'a formula', 'raised %s: %s' % (type(e).__name__, str(e)[:150]))
+    if rt2 != rt:
+        return Failure('restricted', inp, list(rt), list(rt2), 'the second call on the same object gives another formula')
     p = alphabet_problem(logic, rt)
     if p:
         return Failure('restricted', inp, 'restricted alphabet of %s' % logic, list(rt), p)
@@ -134,7 +139,7 @@ def check_lnot(inp):
     L = fm.lang(logic)
     sc = _scope_key(scope_of(inp))
     try:
-        obj = fm.to_lib(t, L)
+        obj = fm.to_lib(t, L, share={} if fm.size(t) % 2 == 0 else None)
     except Exception as e:
         raise core.HarnessError('cannot build %r in %s: %s' % (t, logic, e))
     try:
@@ -208,6 +213,11 @@ def enum_shard(st, shard, nshards, payload):
         forms = scope_formulas(logic, payload['k'])
         if logic in payload.get('deep_logics', ()):
             forms = forms + deep
+        # a repeated one-operator subformula inside every context of <= 2 operators (strided)
+        cs = payload.get('ctx_stride', 0)
+        if cs:
+            forms = forms + {'CTL': lambda: fm.ctl_context(cs * 2), 'LTL': lambda: fm.ltl_context()[::cs],
+                             'CTLS': lambda: fm.ctls_context_q()[::cs] + [('E', g) for g in fm.ltl_context()[5::cs * 3]]}[logic]()
         for t in forms:
             idx += 1
             if idx % nshards != shard:
@@ -319,7 +329,9 @@ def run(ctx):
     ctx.assumptions = ['reference semantics vp/ref.py is the trusted base; equivalence is decided on '
                        'the small scope only (a difference needing a larger structure or longer lasso is out of reach)',
                        'LTL.A(g).get_equivalent_restricted_formula() is outside the domain (the restricted LTL alphabet has no quantifier)']
-    f = core.run_sharded(ctx, enum_shard, {'k': k, 'scope': scope, 'deep_full': ctx.thorough,
+    ctx.scopes.append('every %dth formula of the context families (a repeated one-operator subformula inside every context of <= 2 operators); '
+                      'formulas of even size are built with equal subformulas as one shared object' % ctx.pick(97, 23))
+    f = core.run_sharded(ctx, enum_shard, {'k': k, 'scope': scope, 'deep_full': ctx.thorough, 'ctx_stride': ctx.pick(97, 23),
                                            'deep_logics': ['LTL', 'CTLS'] if ctx.thorough else ['LTL']})
     if f is not None:
         ctx.violation(f)
